@@ -318,7 +318,7 @@ func (r *runner) headerShapes(all bool) {
 	}
 	for b0 := 0; b0 < 256; b0++ {
 		for _, s := range shapes {
-			if !all && rng.Intn(40) != 0 {
+			if !all && rng.Intn(20) != 0 {
 				continue
 			}
 			in := append([]byte{byte(b0)}, s...)
@@ -431,9 +431,9 @@ func generate(r *runner) {
 		}
 	}
 	// structured packets of every type and all their mutations
-	rounds := 1
+	rounds := 4
 	if c.Thorough() {
-		rounds = 8
+		rounds = 16
 	}
 	var encs [][]byte
 	for k := 0; k < rounds; k++ {
@@ -462,11 +462,11 @@ func generate(r *runner) {
 			}
 		}
 	}
-	for i := 0; i < 40*rounds; i++ {
+	for i := 0; i < 100*rounds; i++ {
 		r.splices(encs[rng.Intn(len(encs))], encs[rng.Intn(len(encs))])
 	}
 	r.headerShapes(c.Thorough())
-	n := 30000
+	n := 60000
 	if c.Thorough() {
 		n = 400000
 	}
